@@ -112,3 +112,11 @@ UNITS.append(U(name='htp_connp_tx_remove', props=['C01', 'C05', 'C10'], kind='co
                harness='void HARNESS(void) { htp_connp_t *c; htp_tx_t *t; htp_connp_tx_remove(c, t); CANARY(); }', defs=D, min_obl=5,
                sub='detaching a destroyed transaction: afterwards neither in_tx nor out_tx refers to it (also when it was the current transaction of BOTH directions), nothing else changes',
                assumes=['tx is compared by address only (never dereferenced)']))
+
+UNITS.append(U(name='htp_conn_remove_tx', props=['C04', 'C10', 'C01'], kind='contract', src=['htp_connection.c', 'htp_list.c'],
+               enforce='htp_conn_remove_tx', contracts_inc=['c17_list.h', 'c10_tx.h'],
+               loops={'htp_connection.c': {'htp_conn_remove_tx': {'count': 1, 0: dict(
+                   assigns='i', inv=['i <= n', '(gk < i && gk < conn->transactions->current_size) ==> VIEW(conn->transactions, gk) != (void *) tx'], dec='n - i')}}},
+               harness='void HARNESS(void) { htp_conn_t *c; const htp_tx_t *t; htp_conn_remove_tx(c, t); CANARY(); }', defs=D, min_obl=30,
+               sub='removing a transaction: only a slot that held it becomes NULL; size, order and every other slot unchanged (indices stay valid); present => OK, absent => DECLINED with nothing changed',
+               assumes=['transaction list capacity <= LCAP (symbolic); real htp_list_array_size / get / replace bodies included', 'tx != NULL, conn and its list exist (the NULL guards are trivial early returns)']))
